@@ -3,6 +3,7 @@ _COMMON = [
     'gcc 12 / x86-64 LP64 little-endian; library rebuilt from /repo working tree with -fsanitize=address,undefined',
 ]
 SPEC = dict(
+    lsan=True,
     harness=['h_seq.c'],
     # second configuration: counts/capacities near the top of the index type against a ledger allocator (harness/h_huge.c)
     configs=lambda tier: [dict(name='default'), dict(name='huge', harness=['h_huge.c'], hflags=['-DVF_HUGE=4'], nworkers=2)],
@@ -18,6 +19,16 @@ SPEC = dict(
          'removed element intact and parked past the live range, destructor call counts, refusal of the fixed buffer when full. '
          'The comparators handed to sort/sort_fore/sort_back/push_sort/search return, per case (from seed and case number, logged), -1/0/+1, the key-byte difference, '
          'INT_MIN/INT_MAX or magnitudes varying with the difference (both case classes): only the sign is contractual. '
+         'PUBLIC SURFACE (small case class): every inline function and function-like macro of vec.h and buf.h and the 12 loop macros of a.h they expand to is executed and judged '
+         '(counters form/<name>, all required): the typed call macros A_VEC_/A_BUF_ PUSH_BACK, PUSH_FORE, PULL_BACK, PULL_FORE, INSERT, REMOVE, PUSH_SORT, SEARCH, PUSH, PULL and the alias '
+         'functions a_vec_push/pull, a_buf_push/pull replace the function form in a random half of the calls (T = struct of the element size or unsigned char const; choices from a '
+         'random stream of their own, so the histories are those of the function-only harness); after creation, after every 4th operation and at the end of the history the container '
+         'is walked with every accessor (a_*_at_, top_, end_, ptr, A_*_PTR/AT_/AT/OF/TOP_/TOP/END_/END with T and T const, at every live index, every spare slot, index == capacity, SIZE_MAX, '
+         'negative offsets, -(count+1)) and every iteration form (a_*_forenum(_reverse), A_*_FORENUM(_REVERSE) with I = unsigned, size_t, int, unsigned short; a_*_foreach(_reverse) with '
+         '(T,*), (T const,*), (T,*volatile); A_*_FOREACH(_REVERSE) with T* and T const* variables; the a.h macros applied directly to (storage, count); T = unsigned char[size] for every '
+         'size and struct types for sizes 4 and 12) and each must produce exactly the model sequence: addresses storage+k*size, bytes of model element k, loop indices, count; unallocated '
+         'vectors (null storage, count 0) must be visited zero times; the last element is pulled and pushed back through the alias forms after each walk; a caller struct embedding '
+         'A_BUF_DEF is constructed, filled through the macros, overfilled (refused), pulled and destroyed with the bytes after its payload checked. '
          'LARGE case class (every 61st case in quick, every 793rd in thorough; 99 / 1514 cases): one vector or buffer (element sizes 1,2,3,4,7,8,12,16,24,33; '
          'vector by new or ctor; buffer growable by setm, or fixed in caller storage / one a_buf_new at full size) is driven from empty through every power of '
          'two 2^k, k = 8..kmax, to 2^kmax+3..62 elements, then to a random size up to 1.5*2^kmax, then back down through the powers of two, then re-used by '
@@ -48,7 +59,19 @@ SPEC = dict(
              'large-store', 'large-store-ge-256-elements', 'large-erase', 'large-destroys-each-dropped-element-once-in-order', 'large-setn-shrink-regrow', 'large-setm',
              'large-sort-sorted-permutation', 'large-search-finds-iff-present', 'large-sorted-insert-keeps-order-and-elements', 'large-push_sort',
              'large-sort_fore-path-full', 'large-sort_fore-path-spare', 'large-sort_back-path-full', 'large-sort_back-path-spare', 'large-accessors',
-             'large-vec-swap-large-with-small', 'large-buf-refuses-when-full', 'large-setz-reuse', 'large-exit-and-reuse', 'large-die-destroys-each-element-once'],
+             'large-vec-swap-large-with-small', 'large-buf-refuses-when-full', 'large-setz-reuse', 'large-exit-and-reuse', 'large-die-destroys-each-element-once',
+             # public surface of vec.h / buf.h and the a.h loop macros: every form must have been executed and judged (harness/h_seq.c, PUBLIC SURFACE)
+             'surface-walk', 'surface-walk-null-storage'] + ['form/' + f for f in (
+                 'a_vec_ptr a_vec_at_ a_vec_top_ a_vec_end_ a_vec_push a_vec_pull '
+                 'A_VEC_PTR A_VEC_AT_ A_VEC_AT A_VEC_OF A_VEC_TOP_ A_VEC_TOP A_VEC_END_ A_VEC_END '
+                 'A_VEC_PUSH_SORT A_VEC_SEARCH A_VEC_INSERT A_VEC_REMOVE A_VEC_PUSH_FORE A_VEC_PUSH_BACK A_VEC_PULL_FORE A_VEC_PULL_BACK A_VEC_PUSH A_VEC_PULL '
+                 'a_vec_forenum A_VEC_FORENUM a_vec_forenum_reverse A_VEC_FORENUM_REVERSE a_vec_foreach A_VEC_FOREACH a_vec_foreach_reverse A_VEC_FOREACH_REVERSE '
+                 'a_buf_ A_BUF_DEF a_buf_ptr a_buf_at_ a_buf_top_ a_buf_push a_buf_pull '
+                 'A_BUF_PTR A_BUF_AT_ A_BUF_AT A_BUF_OF A_BUF_TOP_ A_BUF_TOP A_BUF_END '
+                 'A_BUF_PUSH_SORT A_BUF_SEARCH A_BUF_INSERT A_BUF_REMOVE A_BUF_PUSH_FORE A_BUF_PUSH_BACK A_BUF_PULL_FORE A_BUF_PULL_BACK A_BUF_PUSH A_BUF_PULL '
+                 'a_buf_forenum A_BUF_FORENUM a_buf_forenum_reverse A_BUF_FORENUM_REVERSE a_buf_foreach A_BUF_FOREACH a_buf_foreach_reverse A_BUF_FOREACH_REVERSE '
+                 'a_forenum A_FORENUM a_forenum_reverse A_FORENUM_REVERSE a_foreach A_FOREACH a_forsafe A_FORSAFE '
+                 'a_foreach_reverse A_FOREACH_REVERSE a_forsafe_reverse A_FORSAFE_REVERSE').split()],
     cov_files=['vec.c', 'buf.c'], cov_cases=600,
     assumptions=_COMMON + [
         'capacities whose byte size overflows size_t (setn/setm/store with counts near SIZE_MAX) are outside the domain',
